@@ -1,7 +1,15 @@
-"""G10 - argument validation and composition of the meta patterns (essentials.py): exceptions are raised iff
-documented, for every argument kind and ALL integers; what the constructors emit is decided per parameter tuple by the
-language checks (C15-C19).  Bodies are verified against the contracts of what they call (class forms, Numeral, the
-assumed contract of __Integer.__integer / Date.__date_pre)."""
+"""G10 - the meta patterns (essentials.py), for ALL integer parameters and every argument kind:
+ * argument validation: each documented exception is raised iff its documented condition holds, nothing else is raised;
+ * composition: the emitted pattern IS (same text as) a stated chain of the library's own operations -
+     Word(min, max, g, ext)        = AnyWordChar(g).at_least_at_most(min, max) [.enclose(WordBoundary())]
+     WordContains / StartsWith / EndsWith = Either(affixes) enclosed by / followed by / preceded by AnyWordChar(g).indefinite() [bounded]
+     Numeral(b, n, m, ext)         = Numeral(b, 1, 1, True).at_least_at_most(n, m) [bounded]   (the digit class of the base: decided per base)
+     __Integer / Integer family    = <reference sign text> + __integer(start, end, ext)
+     __Decimal / Decimal family    = (Integer pattern | <reference text for a missing integer part>) + '.' + Numeral(10, min, max, ext)
+     Date(formats, ext)            = Either(__date_pre(f) for the selected formats) [bounded]
+   so that the semantics of each follows from the contracts of those operations (C02, C04, C10) and, for the leaves
+   (__integer, __date_pre, the digit classes), from the per-parameter language decisions of C15 / C17 / C19.
+Bodies are verified against the contracts of what they call; constant sub-expressions are executed on the real code."""
 E = "pregex.meta.essentials."
 FR = ["self._Pregex__pattern", "self._Pregex__type", "self._Pregex__repeatable", "self._Pregex__compiled"]
 C = {}
@@ -20,15 +28,18 @@ C[E + "__Integer.__init__"] = dict(
             "is_extensible": "bool"},
     raises={"InvalidArgumentTypeException": "not INT(start) or not INT(end)",
             "InvalidArgumentValueException": "INT(start) and INT(end) and (start < 0 or start > end)"},
-    ensures="True", returns="opaque_init", frame=FR)
+    ensures="SAME_TEXT(TEXT(self), TEXT(INTEGER_T(sign, start, end, is_extensible)))", returns="wrapped_init",
+    value="INTEGER_T(sign, start, end, is_extensible)", frame=FR)
 
 C[E + "Numeral.__init__"] = dict(
-    params={"self": "newobj", "base": "intnb", "n_min": "dyn", "n_max": "dyn", "is_extensible": "bool"},
-    raises={"InvalidArgumentTypeException": "not INT(base) or (2 <= base and base <= 16 and (not INT(n_min) or "
+    params={"self": "newobj", "base": "base", "n_min": "dyn", "n_max": "dyn", "is_extensible": "bool"},
+    raises={"InvalidArgumentTypeException": "not INTB(base) or (2 <= base and base <= 16 and (not INT(n_min) or "
                                             "(n_min >= 0 and not INT(n_max) and not NONE(n_max))))",
-            "InvalidArgumentValueException": "INT(base) and (base < 2 or base > 16 or (INT(n_min) and (n_min < 0 or "
+            "InvalidArgumentValueException": "INTB(base) and (base < 2 or base > 16 or (INT(n_min) and (n_min < 0 or "
                                              "(INT(n_max) and (n_max < 0 or n_max < n_min)))))"},
-    ensures="True", returns="opaque_init", lists="concrete",
+    # for ALL n_min, n_max: the pattern is the digit class of the base, repeated n_min..n_max times, bounded
+    ensures="SAME_TEXT(TEXT(self), TEXT(NUMERAL_CHAIN(base, n_min, n_max, is_extensible)))", returns="wrapped_init",
+    value="NUMERAL_CHAIN(base, n_min, n_max, is_extensible)", lists="concrete",
     loops={1: {"inv": "ISCLS(pre) and not NEGATED(pre)"}}, frame=FR)
 
 C[E + "__Decimal.__init__"] = dict(
@@ -36,49 +47,66 @@ C[E + "__Decimal.__init__"] = dict(
             "min_decimal": "dyn", "max_decimal": "dyn", "is_extensible": "bool"},
     raises={"InvalidArgumentTypeException": "not INT(min_decimal) or (min_decimal >= 1 and not INT(max_decimal) and not NONE(max_decimal))",
             "InvalidArgumentValueException": "INT(min_decimal) and (min_decimal < 1 or (INT(max_decimal) and min_decimal > max_decimal))"},
-    ensures="True", returns="opaque_init", frame=FR, max_paths=60000)
+    ensures="SAME_TEXT(TEXT(self), TEXT(DECIMAL_T(integer_part, no_integer_part, min_decimal, max_decimal, is_extensible)))",
+    returns="wrapped_init", value="DECIMAL_T(integer_part, no_integer_part, min_decimal, max_decimal, is_extensible)",
+    frame=FR, max_paths=60000)
 
 C[E + "Word.__init__"] = dict(
-    params={"self": "newobj", "min_chars": "intx", "max_chars": "intx", "is_global": "bool", "is_extensible": "bool"},
+    params={"self": "newobj", "min_chars": "intx", "max_chars": "intx", "is_global": "boolc", "is_extensible": "bool"},
     raises={"InvalidArgumentTypeException": "not INT(min_chars) or (min_chars >= 1 and not INT(max_chars) and not NONE(max_chars))",
             "InvalidArgumentValueException": "INT(min_chars) and (min_chars < 1 or (INT(max_chars) and (max_chars < 1 or min_chars > max_chars)))"},
-    ensures="True", returns="none", frame=FR)
+    # the pattern IS the method chain, for ALL bounds: AnyWordChar(g).at_least_at_most(min, max) [.enclose(WordBoundary())]
+    ensures="SAME_TEXT(TEXT(self), TEXT(WORD_CHAIN(min_chars, max_chars, is_global, is_extensible)))", returns="none", frame=FR)
 
-for cls, arg in (("WordContains", "infix"), ("WordStartsWith", "prefix"), ("WordEndsWith", "suffix")):
+for cls, arg, chain in (("WordContains", "infix", "WORDCONTAINS_CHAIN"), ("WordStartsWith", "prefix", "WORDSTARTS_CHAIN"),
+                        ("WordEndsWith", "suffix", "WORDENDS_CHAIN")):
     C[E + cls + ".__init__"] = dict(
-        params={"self": "newobj", arg: "affixes", "is_global": "bool", "is_extensible": "bool"},
+        params={"self": "newobj", arg: "affixes", "is_global": "boolc", "is_extensible": "bool"},
         raises={"InvalidArgumentTypeException": f"not ALLSTR({arg})"},
-        ensures="True", returns="none", frame=FR)
+        # the pattern IS the chain Either(affixes) enclosed by / followed by / preceded by AnyWordChar(g).indefinite(), bounded
+        ensures=f"SAME_TEXT(TEXT(self), TEXT({chain}({arg}, is_global, is_extensible)))", returns="none", frame=FR,
+        max_paths=40000, slice_forks=True)
 
 C[E + "Date.__date_formats"] = dict(params={}, raises={}, ensures="sorted(result) == sorted(DATE_FORMATS())", returns="expr", result="DATE_FORMATS()",
                                     lists="concrete", frame=[])
 C[E + "Date.__init__"] = dict(
     params={"self": "newobj", "formats": "formats", "is_extensible": "bool"},
     raises={"InvalidArgumentValueException": "not ALLDOC(formats)"},
-    ensures="True", returns="none", lists="concrete", frame=FR)
+    # the pattern is the alternation of the selected formats' patterns (each: Date.__date_pre, decided per format in C19)
+    ensures="SAME_TEXT(TEXT(self), TEXT(DATE_CHAIN(formats, is_extensible)))", returns="none", lists="concrete", frame=FR)
 
 
 # ---- the public Integer / Decimal classes: the template's documented conditions, unchanged ---------------------------
 INT_T = "not INT(start) or not INT(end)"
 INT_V = "INT(start) and INT(end) and (start < 0 or start > end)"
 INT_OK = "INT(start) and INT(end) and 0 <= start and start <= end"
+SIGNS = {"Integer": "SIGN_INTEGER(include_sign, is_extensible)", "PositiveInteger": "SIGN_POSITIVE(is_extensible)",
+         "NegativeInteger": "SIGN_NEGATIVE(is_extensible)", "UnsignedInteger": "SIGN_UNSIGNED(is_extensible)"}
 for cls in ("Integer", "PositiveInteger", "NegativeInteger", "UnsignedInteger"):
     ps = {"self": "newobj", "start": "dyn", "end": "dyn"}
     if cls == "Integer":
-        ps["include_sign"] = "bool"
-    ps["is_extensible"] = "bool"
+        ps["include_sign"] = "boolc"
+    ps["is_extensible"] = "boolc"
+    # for ALL start, end: the pattern is the (reference) sign text followed by the digits pattern of the range
+    chain = f"INTEGER_T({SIGNS[cls]}, start, end, is_extensible)"
     C[E + cls + ".__init__"] = dict(
         params=ps, raises={"InvalidArgumentTypeException": INT_T, "InvalidArgumentValueException": INT_V},
-        ensures="True", returns="opaque_init", frame=FR)
+        ensures=f"SAME_TEXT(TEXT(self), TEXT({chain}))", returns="wrapped_init", value=chain, frame=FR)
+PARTS = {"Decimal": ("NEW('Integer', start, end, include_sign, is_extensible)", "NOINT_DECIMAL(start, include_sign, is_extensible)"),
+         "PositiveDecimal": ("NEW('PositiveInteger', start, end, is_extensible)", "NOINT_POSITIVE(start, is_extensible)"),
+         "NegativeDecimal": ("NEW('NegativeInteger', start, end, is_extensible)", "NOINT_NEGATIVE(start, is_extensible)"),
+         "UnsignedDecimal": ("NEW('UnsignedInteger', start, end, is_extensible)", "NOINT_UNSIGNED(start, is_extensible)")}
 for cls in ("Decimal", "PositiveDecimal", "NegativeDecimal", "UnsignedDecimal"):
     ps = {"self": "newobj", "start": "dyn", "end": "dyn", "min_decimal": "dyn", "max_decimal": "dyn"}
     if cls == "Decimal":
-        ps["include_sign"] = "bool"
-    ps["is_extensible"] = "bool"
+        ps["include_sign"] = "boolc"
+    ps["is_extensible"] = "boolc"
+    # for ALL parameters: (the corresponding Integer pattern | the reference text for a missing integer part) . fraction digits
+    chain = f"DECIMAL_T({PARTS[cls][0]}, {PARTS[cls][1]}, min_decimal, max_decimal, is_extensible)"
     C[E + cls + ".__init__"] = dict(
         params=ps,
         raises={"InvalidArgumentTypeException": f"({INT_T}) or (({INT_OK}) and (not INT(min_decimal) or (min_decimal >= 1 and "
                                                 "not INT(max_decimal) and not NONE(max_decimal))))",
                 "InvalidArgumentValueException": f"({INT_V}) or (({INT_OK}) and INT(min_decimal) and (min_decimal < 1 or "
                                                  "(INT(max_decimal) and min_decimal > max_decimal)))"},
-        ensures="True", returns="opaque_init", frame=FR, max_paths=60000)
+        ensures=f"SAME_TEXT(TEXT(self), TEXT({chain}))", returns="wrapped_init", value=chain, frame=FR, max_paths=60000)
